@@ -20,7 +20,11 @@ from statham.schema.validation import (
 )
 
 
-RESERVED_PROPERTIES = dir(object) + list(keyword.kwlist) + ["_dict"]
+# ``__dict__`` and ``__weakref__`` exist on every ``Object`` instance but are
+# not listed by ``dir(object)``; assigning a property value to them fails.
+RESERVED_PROPERTIES = (
+    dir(object) + list(keyword.kwlist) + ["_dict", "__dict__", "__weakref__"]
+)
 
 
 class ObjectClassDict(dict):
